@@ -1,6 +1,8 @@
 package rules
 
 import (
+	"fmt"
+	"os"
 	"go/ast"
 	"go/token"
 	"go/types"
@@ -521,4 +523,314 @@ func ownerCompare(pk *packages.Package, fd *ast.FuncDecl, cond ast.Expr) bool {
 		return true
 	})
 	return found
+}
+
+// R12NameOfKind — the name tested for uniqueness is extracted for every kind of configuration that is started.
+func R12NameOfKind(c *Ctx) {
+	const rule = "R12-name-of-kind"
+	c.R.Rule(rule, "in Teamserver.ListenerStart the requested name that is compared with the running listeners' names (inline, or handed to ListenerExist) is read out of `info` by type assertions/switch cases that cover every dynamic type the callers pass as `info`: a kind whose case is missing (or names a pointer type where values are passed) is tested with an empty name and duplicates are accepted", 3)
+	ls := c.P.Func(PkgServer, "Teamserver.ListenerStart")
+	if ls == nil || len(ls.Params) < 3 {
+		c.R.Anchor(rule, "server.(*Teamserver).ListenerStart(ListenerType, info)")
+		return
+	}
+	info := ls.Params[2]
+	// dynamic types passed by the callers
+	var dyn []types.Type
+	unknown := 0
+	if n := c.P.CHA().Nodes[ls]; n != nil {
+		for _, e := range n.In {
+			if e.Site == nil || len(e.Site.Common().Args) < 3 {
+				continue
+			}
+			arg := e.Site.Common().Args[2]
+			if e.Site.Common().IsInvoke() {
+				arg = e.Site.Common().Args[1]
+			}
+			mi, ok := arg.(*ssa.MakeInterface)
+			if !ok {
+				unknown++
+				continue
+			}
+			dup := false
+			for _, d := range dyn {
+				if types.Identical(d, mi.X.Type()) {
+					dup = true
+				}
+			}
+			if !dup {
+				dyn = append(dyn, mi.X.Type())
+			}
+		}
+	}
+	if len(dyn) == 0 {
+		c.R.Anchor(rule, "call sites of ListenerStart passing a concrete configuration")
+		return
+	}
+	// the requested name in the uniqueness test
+	var tested []ssa.Value
+	for _, fn := range HelperClosure(ls, 1) {
+		for _, b := range fn.Blocks {
+			for _, in := range b.Instrs {
+				switch x := in.(type) {
+				case *ssa.Call:
+					if strings.HasSuffix(CalleeName(x), registries[PkgServer+".Teamserver.Listeners"]) && fn == ls {
+						args := CallArgs(x)
+						if len(args) == 1 {
+							tested = append(tested, args[0])
+						}
+					}
+				case *ssa.BinOp:
+					if x.Op != token.EQL || fn != ls {
+						continue
+					}
+					isStored := func(v ssa.Value) bool {
+						return DerivesFrom(v, IsFieldLoad(PkgServer+".Teamserver", "Listeners")) && DerivesFrom(v, IsFieldLoad("", "Name"))
+					}
+					switch {
+					case isStored(x.X) && !isStored(x.Y):
+						tested = append(tested, x.Y)
+					case isStored(x.Y) && !isStored(x.X):
+						tested = append(tested, x.X)
+					}
+				}
+			}
+		}
+	}
+	if len(tested) == 0 {
+		c.R.Anchor(rule, "the comparison of the requested name with the running listeners in ListenerStart")
+		return
+	}
+	// types asserted on `info` in the backward slice of the tested name
+	var asserted []types.Type
+	seen := map[ssa.Value]bool{}
+	var walk func(v ssa.Value, depth int)
+	walk = func(v ssa.Value, depth int) {
+		if v == nil || seen[v] || depth > 40 {
+			return
+		}
+		seen[v] = true
+		switch x := v.(type) {
+		case *ssa.TypeAssert:
+			if os.Getenv("HV_DEBUG") != "" {
+				fmt.Fprintf(os.Stderr, "name-of-kind: assert %v root=%v\n", x, c.RootParam(x.X, ls, 0))
+			}
+			if c.RootParam(x.X, ls, 0) == info {
+				asserted = append(asserted, x.AssertedType)
+			}
+			walk(x.X, depth+1)
+		case *ssa.Extract:
+			walk(x.Tuple, depth+1)
+		case *ssa.UnOp:
+			walk(x.X, depth+1)
+		case *ssa.FieldAddr:
+			walk(x.X, depth+1)
+		case *ssa.Field:
+			walk(x.X, depth+1)
+		case *ssa.ChangeType:
+			walk(x.X, depth+1)
+		case *ssa.Convert:
+			walk(x.X, depth+1)
+		case *ssa.MakeInterface:
+			walk(x.X, depth+1)
+		case *ssa.Phi:
+			for _, e := range x.Edges {
+				walk(e, depth+1)
+			}
+		case *ssa.Alloc:
+			for _, r := range *x.Referrers() {
+				if st, ok := r.(*ssa.Store); ok && st.Addr == ssa.Value(x) {
+					walk(st.Val, depth+1)
+				}
+			}
+		case *ssa.Call:
+			if callee := x.Call.StaticCallee(); callee != nil && callee.Blocks != nil && c.P.InModule(FuncPkgPathOf(callee)) {
+				for _, b := range callee.Blocks {
+					if ret, ok := b.Instrs[len(b.Instrs)-1].(*ssa.Return); ok {
+						for _, r := range ret.Results {
+							walk(r, depth+1)
+						}
+					}
+				}
+			} else if x.Call.IsInvoke() {
+				// a method of the configuration reached through an interface assertion
+				walk(x.Call.Value, depth+1)
+			}
+		}
+	}
+	for _, v := range tested {
+		walk(v, 0)
+	}
+	if os.Getenv("HV_DEBUG") != "" {
+		fmt.Fprintf(os.Stderr, "name-of-kind: tested=%v asserted=%v dyn=%v\n", tested, asserted, dyn)
+	}
+	for _, d := range dyn {
+		construct := "requested name of a " + types.TypeString(d, func(p *types.Package) string { return p.Name() })
+		covered := false
+		for _, a := range asserted {
+			if types.Identical(a, d) {
+				covered = true
+			}
+			if it, ok := a.Underlying().(*types.Interface); ok && types.Implements(d, it) {
+				covered = true
+			}
+		}
+		if covered {
+			c.R.Ok(rule, FuncShort(ls), construct, c.pos(ls.Pos()), "the tested name is read from this kind of configuration", true)
+		} else {
+			c.R.Bad(rule, FuncShort(ls), construct, c.pos(tested[0].Pos()), "callers pass this type as info, but the name compared with the running listeners is never read from it (no assertion to this type feeds the test): the test runs with an empty name and a duplicate listener name is accepted")
+		}
+	}
+	if unknown > 0 {
+		c.R.Extra["R12-name-of-kind.unresolved_call_sites"] = unknown
+	}
+}
+
+// R12RemoveWrites — an unregister function really shrinks the table it is named after.
+func R12RemoveWrites(c *Ctx) {
+	const rule = "R12-remove-writes"
+	c.R.Rule(rule, "Teamserver.EndpointRemove (with its helpers) stores the shrunk list back into t.Endpoints, or every caller assigns its result to t.Endpoints: a removal computed on a local slice and dropped leaves the route of a removed listener registered", 1)
+	type row struct{ fn, typ, field string }
+	for _, r := range []row{{"Teamserver.EndpointRemove", PkgServer + ".Teamserver", "Endpoints"}} {
+		fn := c.P.Func(PkgServer, r.fn)
+		if fn == nil {
+			c.R.Anchor(rule, "server.(*"+strings.Replace(r.fn, ".", ").", 1))
+			continue
+		}
+		storesField := func(f *ssa.Function, val func(ssa.Value) bool) bool {
+			found := false
+			for _, b := range f.Blocks {
+				for _, in := range b.Instrs {
+					if st, ok := in.(*ssa.Store); ok {
+						if t, fl, _, ok := FieldOf(st.Addr); ok && t == r.typ && fl == r.field && (val == nil || val(st.Val)) {
+							found = true
+						}
+					}
+				}
+			}
+			return found
+		}
+		inside := false
+		for _, h := range HelperClosure(fn, 2) {
+			if storesField(h, nil) {
+				inside = true
+			}
+		}
+		construct := "t." + r.field + " = <list without the entry>"
+		if inside {
+			c.R.Ok(rule, FuncShort(fn), construct, c.pos(fn.Pos()), "the function writes the table", true)
+			continue
+		}
+		byCallers := c.EveryCallSite(fn, func(site ssa.CallInstruction) bool {
+			v := site.Value()
+			if v == nil {
+				return false
+			}
+			return storesField(site.Parent(), func(x ssa.Value) bool { return x == ssa.Value(v) })
+		})
+		if byCallers {
+			c.R.Ok(rule, FuncShort(fn), construct, c.pos(fn.Pos()), "every caller stores the result into the table", true)
+		} else {
+			c.R.Bad(rule, FuncShort(fn), construct, c.pos(fn.Pos()), "neither the function nor all of its callers store the shrunk list into t."+r.field+": the removed entry stays registered (its route keeps being served and its name stays taken)")
+		}
+	}
+}
+
+// R12StartBeforeRegister — a listener whose start can fail is registered only after it started.
+func R12StartBeforeRegister(c *Ctx) {
+	const rule = "R12-start-before-register"
+	c.R.Rule(rule, "where a function both calls a listener's Start method that reports an error and appends to t.Listeners, the append comes after the call on the path where it returned nil; an append that precedes the call is accepted only when the failure edge removes the entry again — otherwise a listener whose start failed stays registered with its name taken", 1)
+	n := 0
+	for _, fn := range c.P.ModuleFuncs(NonYaotl) {
+		var grows []*ssa.Store
+		var starts []*ssa.Call
+		for _, b := range fn.Blocks {
+			for _, in := range b.Instrs {
+				switch x := in.(type) {
+				case *ssa.Store:
+					if t, f, _, ok := FieldOf(x.Addr); ok && t == PkgServer+".Teamserver" && f == "Listeners" {
+						if ap, isApp := x.Val.(*ssa.Call); isApp && CalleeName(ap) == "builtin.append" {
+							if _, isSlice := ap.Call.Args[0].(*ssa.Slice); !isSlice {
+								grows = append(grows, x)
+							}
+						}
+					}
+				case *ssa.Call:
+					name := ""
+					if x.Call.IsInvoke() {
+						name = x.Call.Method.Name()
+					} else if cal := x.Call.StaticCallee(); cal != nil && cal.Signature.Recv() != nil {
+						name = cal.Name()
+					}
+					res := x.Call.Signature().Results()
+					if name == "Start" && res.Len() == 1 && res.At(0).Type().String() == "error" {
+						starts = append(starts, x)
+					}
+				}
+			}
+		}
+		for _, st := range grows {
+			for _, s := range starts {
+				n++
+				construct := "Start() == nil before Listeners = append(Listeners, …)"
+				after := InstrDominates(s, st)
+				guarded := false
+				for _, f := range FactsAt(st.Block()) {
+					if bo, ok := f.Cond.(*ssa.BinOp); ok && (isNilConst(bo.X) || isNilConst(bo.Y)) {
+						v := bo.X
+						if isNilConst(bo.X) {
+							v = bo.Y
+						}
+						if DerivesFromNarrowCalls(v, func(x ssa.Value) bool { return x == ssa.Value(s) }) && ((bo.Op == token.EQL) == f.Truth) {
+							guarded = true
+						}
+					}
+				}
+				switch {
+				case after && guarded:
+					c.R.Ok(rule, FuncShort(fn), construct, c.pos(st.Pos()), "registered on the path where Start returned nil", true)
+				case !BlockReaches(st.Block(), s.Block(), nil) && !BlockReaches(s.Block(), st.Block(), nil):
+					n-- // unrelated branches
+				default:
+					// registered first (or regardless of the outcome): the failure edge must undo it
+					undone := false
+					for _, b := range fn.Blocks {
+						failEdge := false
+						for _, f := range FactsAt(b) {
+							if bo, ok := f.Cond.(*ssa.BinOp); ok && (isNilConst(bo.X) || isNilConst(bo.Y)) {
+								v := bo.X
+								if isNilConst(bo.X) {
+									v = bo.Y
+								}
+								if DerivesFromNarrowCalls(v, func(x ssa.Value) bool { return x == ssa.Value(s) }) && ((bo.Op == token.NEQ) == f.Truth) {
+									failEdge = true
+								}
+							}
+						}
+						if !failEdge {
+							continue
+						}
+						for _, in := range b.Instrs {
+							if x, ok := in.(*ssa.Store); ok {
+								if t, f, _, ok := FieldOf(x.Addr); ok && t == PkgServer+".Teamserver" && f == "Listeners" {
+									undone = true
+								}
+							}
+							if ci, ok := in.(ssa.CallInstruction); ok && strings.HasSuffix(CalleeName(ci), ".ListenerRemove") {
+								undone = true
+							}
+						}
+					}
+					if undone {
+						c.R.Ok(rule, FuncShort(fn), construct, c.pos(st.Pos()), "registered before the start, and unregistered again on the failure edge", true)
+					} else {
+						c.R.Bad(rule, FuncShort(fn), construct, c.pos(st.Pos()), "the listener is appended to t.Listeners before (or regardless of) the outcome of its Start call and the failure path does not remove it: a listener that failed to start stays in the running set and its name cannot be used again")
+					}
+				}
+			}
+		}
+	}
+	if n == 0 {
+		c.R.Anchor(rule, "a function that calls an error-returning Start and appends to t.Listeners")
+	}
 }
